@@ -14,6 +14,9 @@ M_pos == {<<3, 2>>, <<7, 1>>}
 M_exp == {<<3, 2>>, <<-2, 1>>}
 K_two == {<<-2, 1>>, <<5, 3>>}
 K_one == {<<5, 3>>}
+K_zero == {<<5, 3>>, <<0, 1>>}
+M_pos0 == {<<3, 2>>, <<7, 1>>, <<0, 1>>}
+Plan_reg2 == <<{"defunit", "unitless", "derived"}, {"defunit", "unitless", "derived", "roundtrip"}>>
 
 N_all == CatNames
 \* covers every dimension, the generators 2,3,5 (min, h), prefixes both ways, derived units
